@@ -14,6 +14,7 @@ import (
 	"runtime/debug"
 	"sort"
 	"strconv"
+	"strings"
 	"time"
 )
 
@@ -72,14 +73,14 @@ type Config struct {
 	KeepTrace     bool           // keep the full event list (replays, samples)
 	WallLimit     time.Duration  // real-time watchdog for one run
 	OnSettled     func(g string) // called at a settled point (see settle detection), on the scheduler's stack
-	OnForeignFire func(seq uint64)
+	OnForeignFire func(seq uint64, polled bool)
 }
 
 type Stats struct {
 	Steps, Switches, ClockJumps, VoluntaryClock, ForeignFired int
 	MapDecisions, MapNonSorted                                int
 	SelectMulti, MutexContended, ChanSendBlocked              int
-	Settled, TimersFired                                      int
+	Settled, TimersFired, BusyAdvance                         int
 }
 
 type timerEv struct {
@@ -114,14 +115,15 @@ type Sim struct {
 	Stats    Stats
 
 	// interval bookkeeping between two forced clock advances
-	ranFirst   *G   // first goroutine that ran since the last forced advance
-	ranMulti   bool // more than one distinct goroutine ran since then
+	ran        []*G // distinct goroutines that ran since the last forced advance
+	prevLone   []*G // runner set of the previous closed interval
+	prevQuiet  []*G // runner set of the previous quiet interval
 	loneCount  int
 	quietCount int
-	quietG     *G
-	wokeEnv    bool // the forced advance woke at least one environment sleeper
+	wokeEnv    bool // a clock advance of this interval woke at least one environment sleeper
 
 	FirstForeign uint64 // seq of the first fired receive on a foreign channel (0 = none)
+	sinceAdvance int    // scheduling steps since the clock last moved
 	enabledBuf   []*G
 	optBuf       []string
 }
@@ -245,11 +247,33 @@ func (s *Sim) event(kind, obj string) uint64 {
 func Note(kind, obj string) uint64 { return S.event(kind, obj) }
 
 func (s *Sim) noteRan(g *G) {
-	if s.ranFirst == nil {
-		s.ranFirst = g
-	} else if s.ranFirst != g {
-		s.ranMulti = true
+	for _, o := range s.ran {
+		if o == g {
+			return
+		}
 	}
+	s.ran = append(s.ran, g)
+}
+
+func hasG(set []*G, g *G) bool {
+	for _, o := range set {
+		if o == g {
+			return true
+		}
+	}
+	return false
+}
+
+func sameSet(a, b []*G) bool {
+	if len(a) != len(b) {
+		return false
+	}
+	for _, g := range a {
+		if !hasG(b, g) {
+			return false
+		}
+	}
+	return true
 }
 
 // schedule picks the next goroutine to run and hands the baton over. It is called by the current
@@ -284,6 +308,14 @@ func (s *Sim) schedule() {
 			return
 		}
 		pending := s.pendingWakeups()
+		// Real time passes while goroutines run: a busy loop that never blocks (a poll on a channel
+		// that is always ready, a zero-length timer) must not freeze the clock for everybody else.
+		s.sinceAdvance++
+		if s.sinceAdvance > busyQuantum && pending > 0 && len(enabled) > 0 {
+			s.Stats.BusyAdvance++
+			s.advanceClock()
+			continue
+		}
 		if len(enabled) == 0 {
 			if pending == 0 {
 				s.verdict = VDeadlock
@@ -359,36 +391,77 @@ func (s *Sim) pendingWakeups() int {
 // forcedAdvance: nothing is enabled, time must pass. This is also where the liveness bookkeeping
 // happens: the interval since the previous forced advance is classified.
 func (s *Sim) forcedAdvance(pending int) {
-	// Which goroutines are waiting for the clock at all (sleepers; timers count as their owner)?
-	single := s.ranFirst != nil && !s.ranMulti
-	if single && pending == 1 {
-		// only one wake-up source exists, and since the last forced advance only one goroutine ran:
-		// the system is closed and driven by a single clock-waiting goroutine.
+	ran := s.ran
+	// Closed interval: every pending wake-up (sleeper or timer) belongs to a goroutine that ran in
+	// this interval and is not an environment sleep: the system is driven solely by goroutines
+	// that wake up on the clock, look around and go back to waiting, and nobody else can ever move.
+	closed := len(ran) > 0
+	for _, g := range s.live {
+		if g.state == gSleeping && (g.envSleep || !hasG(ran, g)) {
+			closed = false
+		}
+	}
+	for _, t := range s.timers {
+		if t.dead {
+			continue
+		}
+		owned := false
+		for _, g := range ran {
+			if g.Name == t.owner {
+				owned = true
+			}
+		}
+		if !owned {
+			closed = false
+		}
+	}
+	switch {
+	case closed && sameSet(ran, s.prevLone):
 		s.loneCount++
+	case closed:
+		s.loneCount = 1
+	default:
+		s.loneCount = 0
+	}
+	if closed {
+		s.prevLone = append(s.prevLone[:0], ran...)
 		if s.loneCount >= s.cfg.LoneLimit {
 			s.verdict = VLivelock
 			s.aborted = true
 			return
 		}
 	} else {
-		s.loneCount = 0
+		s.prevLone = s.prevLone[:0]
 	}
-	// settle detection: the single runner of the interval woke from an internal (non-environment)
-	// sleep or timer, performed only idle events, and went back to waiting; twice in a row.
-	if single && !s.wokeEnv && !s.ranFirst.nonIdle && s.ranFirst.state != gDone {
-		if s.quietG == s.ranFirst {
-			s.quietCount++
-		} else {
-			s.quietG, s.quietCount = s.ranFirst, 1
+	// Settle detection: every runner of the interval woke from an internal (non-environment) sleep
+	// or timer, performed only idle events and went back to waiting; twice in a row with the same
+	// set of runners.
+	quiet := len(ran) > 0 && !s.wokeEnv
+	for _, g := range ran {
+		if g.nonIdle || g.state == gDone {
+			quiet = false
 		}
+	}
+	switch {
+	case quiet && sameSet(ran, s.prevQuiet):
+		s.quietCount++
+	case quiet:
+		s.quietCount = 1
+	default:
+		s.quietCount = 0
+	}
+	if quiet {
+		s.prevQuiet = append(s.prevQuiet[:0], ran...)
 		if s.quietCount >= 2 && s.cfg.OnSettled != nil {
 			s.Stats.Settled++
-			s.cfg.OnSettled(s.ranFirst.Name)
+			for _, g := range ran {
+				s.cfg.OnSettled(g.Name)
+			}
 		}
 	} else {
-		s.quietG, s.quietCount = nil, 0
+		s.prevQuiet = s.prevQuiet[:0]
 	}
-	s.ranFirst, s.ranMulti = nil, false
+	s.ran = s.ran[:0]
 	for _, g := range s.live {
 		g.nonIdle = false
 	}
@@ -397,8 +470,13 @@ func (s *Sim) forcedAdvance(pending int) {
 	s.advanceClock()
 }
 
+// busyQuantum: after this many consecutive scheduling steps without any clock movement, time is
+// advanced to the next pending wake-up even though goroutines are runnable.
+const busyQuantum = 300
+
 // advanceClock moves time to the earliest pending wake-up and releases everything due.
 func (s *Sim) advanceClock() {
+	s.sinceAdvance = 0
 	first := true
 	var min time.Duration
 	for _, g := range s.live {
@@ -532,6 +610,18 @@ func SleepCount(name string) int {
 		}
 	}
 	return 0
+}
+
+// BlockedCount reports how many unfinished goroutines whose name starts with namePrefix are
+// blocked on something whose description starts with whyPrefix ("lock", "send", "recv", ...).
+func BlockedCount(namePrefix, whyPrefix string) int {
+	n := 0
+	for _, g := range S.live {
+		if g.state == gBlocked && strings.HasPrefix(g.Name, namePrefix) && strings.HasPrefix(g.why, whyPrefix) {
+			n++
+		}
+	}
+	return n
 }
 
 // Describe lists every unfinished goroutine with what it waits for (diagnostics).
